@@ -25,10 +25,33 @@ def dense_body():
     return b"".join(tlv.http_config(b"\x30\x81" + bytes(range(1, 160)), extra=[tlv.ptr(200, blob)]))
 
 
-def embed(area: bytes, container: str, posclass: str, seed: int):
+def tie_body(keylen: int):
+    """a configuration with a long uniform run whose aligned keylen-grams occur exactly as often as those of the zero padding
+    (the key recovery must try every most-frequent candidate, not only the first); None if no run length gives a tie"""
+    import collections
+
+    head = tlv.http_config(b"\x30\x81" + bytes(range(1, 160)))
+    for run in range(1000, 3800):
+        # (the run comes first so that its n-gram is met before the padding's: the first candidate is the wrong one)
+        body = b"".join(head[:1] + [tlv.ptr(200, b"A" * run)] + head[1:])
+        if len(body) > 6100:
+            break
+        cfg = body.ljust(6144, b"\x00")
+        grams = collections.Counter(cfg[i : i + keylen] for i in range(0, 6144, keylen))
+        top = grams.most_common(2)
+        if len(top) == 2 and top[0][1] == top[1][1] and {top[0][0], top[1][0]} == {b"A" * keylen, b"\x00" * keylen} and top[0][0] == b"A" * keylen:
+            return body
+    return None
+
+
+def embed(area: bytes, container: str, posclass, seed: int):
     """Returns (payload bytes, offset of the area in the view that extraction reads)."""
     rng = random.Random(seed)
     fill = lambda n: bytes(rng.randrange(1, 255) for _ in range(n)) if seed % 2 else bytes([0x90]) * n  # noqa: E731
+    if container == "raw" and isinstance(posclass, (tuple, list)):
+        # ("guard_at", N): the guard configuration starts exactly at file offset N
+        pre, post = posclass[1] - 6144, 50
+        return fill(pre) + area + fill(post), pre, None
     if container == "raw":
         pre = {"zero": 0, "mid": rng.choice([1, 37, 5000, 8192]), "end": rng.choice([100, 6150])}[posclass]
         post = 0 if posclass == "end" else rng.choice([1, 300, 9000])
@@ -84,7 +107,7 @@ def one(args):
 def run(ctx):
     q = ctx.quick
     ctx.trusted += ["TLC", "GuardR (Mask/GuardMask/Checksum/GuardCfg)", "harness builder ref/guard.py (cross-checked byte for byte against TLC's Protect)"]
-    ctx.assumptions += ["configurations are zero-padded to the 6144-byte patch area and the padding dominates the aligned n-gram statistics (what the key recovery relies on)",
+    ctx.assumptions += ["configurations are zero-padded to the 6144-byte patch area and no aligned n-gram of the key length is more frequent than the padding's (what the key recovery relies on; ties are included)",
                         "corruptions are placed outside the last 2048 bytes of the configuration so that the guard configuration stays readable",
                         "environmental keys are compared modulo their primitive period"]
     mc = f"""CONSTANTS
@@ -176,6 +199,26 @@ CHECK_DEADLOCK FALSE
         if kind == "stored":
             area, stored = refguard.protect(bodies[bi], key, opts, stored + rng.choice([1, -1, -1, 2, 255]))
         jobs2.append(({"body": bi + 1, "area": L(area), "key": L(key), "keylen": n, "opts": opts, "kind": kind, "stored": stored, "reportable": kind == "none"}, "raw", rng.choice(["zero", "mid", "end"]), rng.randrange(1 << 30)))
+    # protected areas deep inside large payloads: the guard configuration at and around 64 KiB and 1 MiB file offsets
+    for base_off, ds in ((0x10000, [-6, -1, 0, 5] if q else range(-7, 8)), (0x100000, [-3, 0, 5] if q else range(-12, 13))):
+        for d in ds:
+            n = rng.choice([7, 15, 100, 255])
+            key = bytes(rng.randrange(1, 256) for _ in range(n))
+            area, stored = refguard.protect(bodies[0], key, ["user"])
+            jobs2.append(({"body": 1, "area": L(area), "key": L(key), "keylen": n, "opts": ["user"], "kind": "none", "stored": stored, "reportable": True}, "raw", ("guard_at", base_off + d), rng.randrange(1 << 30)))
+    # a uniform run that ties with the zero padding in the n-gram statistics of the key length (keys longer than 128 bytes:
+    # shorter ones are also found through a multiple of their length)
+    n_tie = 0
+    for n in ([150, 233] if q else [129, 150, 177, 200, 233, 255, 256]):
+        tb = tie_body(n)
+        if tb is None:
+            continue
+        bodies.append(tb)
+        key = bytes(rng.randrange(1, 256) for _ in range(n))
+        area, stored = refguard.protect(tb, key, ["computer", "ip"])
+        jobs2.append(({"body": len(bodies), "area": L(area), "key": L(key), "keylen": n, "opts": ["computer", "ip"], "kind": "none", "stored": stored, "reportable": True}, "raw", "mid", rng.randrange(1 << 30)))
+        n_tie += 1
+    ctx.notes["tie_bodies"] = n_tie
     with mp.get_context("fork").Pool(14) as pool:
         results2 = pool.map(one, jobs2, chunksize=1)
     for (row, container, pos, _s), res in zip(jobs2, results2):
